@@ -7,6 +7,7 @@ import (
 	"go/types"
 	"math"
 	"strings"
+	"sync/atomic"
 	"time"
 
 	"golang.org/x/tools/go/ssa"
@@ -30,6 +31,7 @@ type Config struct {
 	Thorough         bool
 	Deadline         time.Time
 	OKSampleMax      int
+	Stop             *atomic.Bool // set when another case of the same check found a violation
 }
 
 type Stats struct {
